@@ -46,7 +46,7 @@ def chi_case(draw):
     zf = draw(st.sampled_from([0.2, 0.0, 0.4]))
     return dict(n=n, m=max(1, m), seed=draw(st.integers(0, 10 ** 6)), zf=zf, bscale=draw(st.sampled_from([1.0, 1e3, 1e-3])),
                 order=list(draw(st.permutations(['covar', 'acoeff', 'var', 'chi2', 'yfit', 'dof']))),
-                basis=draw(st.sampled_from(['rawpoly', 'poly', 'random'])), near=draw(st.sampled_from([None, None, None, 1e-7, 1e-5])))
+                basis=draw(st.sampled_from(['rawpoly', 'poly', 'random'])), zero_rows=draw(st.sampled_from([0, 0, 1, 3])), near=draw(st.sampled_from([None, None, None, 1e-7, 1e-5])))
 
 
 def chi_body(case):
@@ -61,6 +61,12 @@ def chi_body(case):
         A = np.array([np.polynomial.legendre.legval(x, [0] * k + [1]) for k in range(m)]).T
     else:
         A = pseudo(seed, (n, m))
+    if case.get('zero_rows') and case['basis'] == 'random' and n >= m + 6:
+        # round 12: templates that vanish over part of the range - rows of the matrix that are zero in every column, at points that carry
+        # weight: they cannot be fitted but they are data (they count in chi2 and in the degrees of freedom)
+        zr = np.argsort(pseudo(seed + 9, (n,)))[:case['zero_rows']]
+        A[zr, :] = 0.0
+        note_label('all-zero-rows-with-weight')
     b = case['bscale'] * pseudo(seed + 1, (n,))
     near = case.get('near') if case['basis'] != 'rawpoly' else None
     if near:
